@@ -31,9 +31,15 @@ class Corr:
 def compare(res, corr, driver, harness, config, env=None, sigfn=sig_default, wrapper=(), harness_jobs=common.NPROC,
             impl_filter=None, label="impl"):
     """Runs both sides.  Returns statistics dict; records violations in res."""
-    rc_m, out_m, err_m = common.run_parallel(driver, corr.lines, corr.sessions)
-    if rc_m != 0:
-        raise common.Infra("model driver failed: " + err_m[-2000:])
+    # the model's answers do not depend on the configuration: computed once per operation file
+    cache = getattr(corr, "_model_cache", None)
+    if cache and cache[0] == (driver, len(corr.lines), len(corr.sessions)):
+        out_m = cache[1]
+    else:
+        rc_m, out_m, err_m = common.run_parallel(driver, corr.lines, corr.sessions)
+        if rc_m != 0:
+            raise common.Infra("model driver failed: " + err_m[-2000:])
+        corr._model_cache = ((driver, len(corr.lines), len(corr.sessions)), out_m)
     rc_i, out_i, err_i = common.run_parallel(harness, corr.lines, corr.sessions, env=env, wrapper=wrapper, jobs=harness_jobs)
     ndis = 0
     distinct = set()
